@@ -54,6 +54,10 @@ def check(ctx):
     # time after the last bus activity (also for a partially received reply) - clause d.pass "slot-expiry-definition" of C11
     from rules import C11
     rule.import_clauses(ctx, "C11", lambda s_: C11.check_slot_expiry(s_, P), as_clause="d.timeout")
+    from rules import C01, C12
+    rule.import_clauses(ctx, "C01", lambda s_: C01.check_rx(s_, P), as_clause="d.timeout")
+    # the station's own GAP polls are probes too: only addresses below HSA (<= 125) - clause a of C12
+    rule.import_clauses(ctx, "C12", lambda s_: C12.check_next_gap_poll(s_, P), as_clause="a.range")
     for ty, cfg in APPS.items():
         fns = [f for f in P.crate_fns(CR) if f.kind == "assoc" and (f.j.get("self_ty") == ty) and not f.j.get("derived")]
         ctx.anchor("methods of " + ty, len(fns), 4)
